@@ -4,6 +4,7 @@ import Driver.Journal
 import Driver.Precompile
 import Driver.Memory
 import Driver.Frame
+import Driver.CallTracer
 /-
   Model driver: one input line ↦ one output line (see DESIGN.md §2.6).
 -/
@@ -13,6 +14,8 @@ structure DState where
   tr : Tracer := {}
   j : Driver.JState := {}
   f : FState := {}
+  ct : Driver.CTState := {}
+  ctFlat : Bool := false
 
 def dispatch (st : DState) (toks : List String) : DState × String :=
   match toks with
@@ -21,6 +24,11 @@ def dispatch (st : DState) (toks : List String) : DState × String :=
   | "T" :: rest =>
     let (tr, out) := Driver.tracerOp st.tr rest
     ({ st with tr := tr }, out)
+  | ["EC", flat, onlyTop, incl] =>
+    ({ st with ctFlat := flat == "1", ct := { st := { onlyTop := onlyTop == "1" }, includePrecompiles := incl == "1" } }, "ok")
+  | "E" :: rest =>
+    let (c, out) := Driver.ctEvent st.ct st.ctFlat rest
+    ({ st with ct := c }, out)
   | "F" :: rest =>
     match Driver.parseFEvent rest with
     | some ev =>
@@ -29,6 +37,9 @@ def dispatch (st : DState) (toks : List String) : DState × String :=
       ({ st with f := f, tr := f.tracer }, "ok")
     | none => (st, "bad-op")
   | "Q" :: rest =>
+    match Driver.ctQuery st.ct rest with
+    | some out => (st, out)
+    | none =>
     match Driver.frameQuery st.f rest with
     | some out => (st, out)
     | none => (st, Driver.tracerQuery st.tr rest)
@@ -58,6 +69,12 @@ def dispatch (st : DState) (toks : List String) : DState × String :=
   | ["S", "balshadow"] => (st, "match")
   | ["S", "static-same"] => (st, "same")
   | ["S", "atomic"] => (st, "ok")
+  -- C01/C02/C18 specification: the fork behaves exactly like go-ethereum v1.12.0 on standard programs
+  | "S" :: "upstream-same" :: _ => (st, "same")
+  | "S" :: "upstream-same-gas-sweep" :: _ => (st, "same")
+  | "S" :: "tracer-same" :: _ => (st, "same")
+  | ["S", "ctrender"] => (st, "ok")
+  | ["S", "ctflatinv"] => (st, "ok")
   | ["S", "jp"] => (st, "ok")
   | ["S", "gas"] => (st, "ok")
   | ["S", "node"] => (st, "ok")
